@@ -48,13 +48,15 @@ type Engine struct {
 	fileOf    map[*ssa.Function]*ast.File
 	allFuncs  map[*ssa.Function]bool
 	specDir   string
+	tier      string
+	deferred  map[string]bool
 }
 
 func loadEngine(repo, specDir string) (*Engine, error) {
 	eng := &Engine{repo: repo, famSorts: map[string]string{}, specFuncs: map[string]specFunc{}, seqFuncs: map[string]specFunc{},
 		typeIDs: map[string]int{}, funcIDs: map[*ssa.Function]int{}, globalIdx: map[*ssa.Global]int{}, globalByAddr: map[Term]*ssa.Global{},
 		modsets: map[*ssa.Function]*modset{}, unmodelled: map[string]int{}, trustedUsed: map[string]bool{},
-		pendingHavoc: map[string]bool{}, srcCache: map[string][]byte{}, spkgs: map[string]*ssa.Package{}, specDir: specDir}
+		pendingHavoc: map[string]bool{}, deferred: map[string]bool{}, srcCache: map[string][]byte{}, spkgs: map[string]*ssa.Package{}, specDir: specDir}
 	fset := token.NewFileSet()
 	eng.fset = fset
 	cfg := &packages.Config{Mode: packages.LoadAllSyntax, Dir: repo, BuildFlags: []string{"-tags=verif"}, Fset: fset,
@@ -108,6 +110,7 @@ func (eng *Engine) loadSpecs() error {
 	files, _ := filepath.Glob(filepath.Join(eng.specDir, "*.smt2"))
 	sort.Strings(files)
 	var b strings.Builder
+	b.WriteString("; address arithmetic: adr(base, k) = base + k (uninterpreted so that triggers match)\n(declare-fun adr (Int Int) Int)\n(assert (forall ((b Int) (k Int)) (! (= (adr b k) (+ b k)) :pattern ((adr b k)))))\n")
 	for _, f := range files {
 		data, err := os.ReadFile(f)
 		if err != nil {
